@@ -280,7 +280,7 @@ fn bits_strategy(k: FloatKind) -> BoxedStrategy<u64> {
 
 fn run_for<F: FloatT>(ctx: &Ctx, rep: &mut Report) {
     let k = F::KIND;
-    let n = ctx.n(400_000, 100_000_000);
+    let n = ctx.n(3_000_000, 100_000_000);
     run_prop(rep, ctx, &format!("{}:generated", F::NAME), n, || bits_strategy(k), |b| case_json::<F>(*b), |b, l| check_bits::<F>(*b & (k.sign_mask() | (k.sign_mask() - 1)), l));
     // every binade x structured mantissas (covers every Dragonbox / Grisu table row)
     let n_exp = k.max_exp_field() as usize; // exponent fields 0..max-1
